@@ -140,7 +140,7 @@ def r_request_element(rep, prog):
             a = [T.canon(x) for x in loc[2][1:]]
             rep.check(a == [("p", "core"), ("p", "cores"), ("p", "pid")], rule, "request|to_local-args", "to_local(core, cores, pid)",
                       "to_local receives %s" % (a,), t["span"])
-    rep.floor(rule, "Request::new sites in request()", n, 2)
+    rep.floor(rule, "Request::new sites in request()", n, 1)
     c = lib.need_body(prog, "llfree_eval::classes::ClassingConfig::classing::{closure#0}")
     ctm = T.Terms(c, prog)
     ok = False
